@@ -292,7 +292,7 @@ pub fn run(ctx: &Ctx) -> Result<Run, String> {
         g.transitions += st.evaluations;
         g.stats.count("client_instance_differential_histories", st.evaluations);
         g.stats.merge(st);
-        let names: Vec<(String, bool)> = extra_names().into_iter().flat_map(|n| [(n.clone(), false), (n, true)]).collect();
+        let names: Vec<(String, bool)> = extra_names().into_iter().chain([CHANGING.to_string()]).flat_map(|n| [(n.clone(), false), (n, true)]).collect();
         let st = crate::core::par::sweep_cases(&names, ctx.threads, |(n, reg), st| {
             st.case(&(n, reg), true, "extra-name");
             for (k, d) in eval_extra_name(n, *reg) {
@@ -308,7 +308,7 @@ pub fn run(ctx: &Ctx) -> Result<Run, String> {
     }
     let mut run = Run::from_stats(
         "model_checking",
-        "explicit-state BFS over histories: register(rp in 2, user in 2) and authenticate(origin/RP in 4 incl. a sub-domain origin of the same RP and an RP without credentials, allow list in {absent, empty, [own], [unknown, own], [unknown], [credential of another RP], [unknown id with an unknown credential type]}, userVerification in {required, preferred, discouraged with and without the user verifying anyway}, client-data mode in 3) plus 10 challenges on two base assertions, from the empty and two seeded stores, on a real Client over the contract store; every assertion is verified by an independent relying party (ECDSA verify under the key derived from the stored scalar, client data, rpIdHash, flags, user handle). Plus the instance differential: the complete tree of histories to depth 3 (thorough 4) over {assertion with the seeded / no / an unknown / the first created credential, registration rk on/off, getInfo, a registration and an assertion dropped while the user step is pending} on ONE long-lived Authenticator against fresh Authenticators per operation, on the contract store, Arc<Mutex<MemoryStore>> and Arc<Mutex<Option<Passkey>>> (results and final store must agree), and the same for ONE long-lived Client against fresh Clients over {registration rk/credProps on two origins, authentication with the seeded / no / an unknown / the first created credential, with and without prf, a request refused for its RP id}. Extra client data under every identifier-like literal of the client and types sources and the member names of related specifications (payment, topOrigin, tokenBinding, ...): type, challenge, origin and signature as always. State shared between instances: on one fresh thread, three authenticators whose stores hold the SAME credential id with three different keys (two RPs) assert in turn, twice, and one key handle is U2F-registered, used, re-registered and used again; every signature must verify under the key its own store holds. States are deduplicated on (RP, user handle, counter) per record in creation order; every transition is a distinct non-trivial real ceremony",
+        "explicit-state BFS over histories: register(rp in 2, user in 2) and authenticate(origin/RP in 4 incl. a sub-domain origin of the same RP and an RP without credentials, allow list in {absent, empty, [own], [unknown, own], [unknown], [credential of another RP], [unknown id with an unknown credential type]}, userVerification in {required, preferred, discouraged with and without the user verifying anyway}, client-data mode in 3) plus 10 challenges on two base assertions, from the empty and two seeded stores, on a real Client over the contract store; every assertion is verified by an independent relying party (ECDSA verify under the key derived from the stored scalar, client data, rpIdHash, flags, user handle). Plus the instance differential: the complete tree of histories to depth 3 (thorough 4) over {assertion with the seeded / no / an unknown / the first created credential, registration rk on/off, getInfo, a registration and an assertion dropped while the user step is pending} on ONE long-lived Authenticator against fresh Authenticators per operation, on the contract store, Arc<Mutex<MemoryStore>> and Arc<Mutex<Option<Passkey>>> (results and final store must agree), and the same for ONE long-lived Client against fresh Clients over {registration rk/credProps on two origins, authentication with the seeded / no / an unknown / the first created credential, with and without prf, a request refused for its RP id}. Extra client data under every identifier-like literal of the client and types sources and the member names of related specifications (payment, topOrigin, tokenBinding, ...), and a caller-supplied ClientData whose extra data differs at every call: type, challenge, origin and signature as always. State shared between instances: on one fresh thread, three authenticators whose stores hold the SAME credential id with three different keys (two RPs) assert in turn, twice, and one key handle is U2F-registered, used, re-registered and used again; every signature must verify under the key its own store holds. States are deduplicated on (RP, user handle, counter) per record in creation order; every transition is a distinct non-trivial real ceremony",
         true,
         g.stats,
     );
@@ -339,6 +339,19 @@ pub fn extra_names() -> Vec<String> {
     v
 }
 
+/// A caller-supplied `ClientData` whose extra data differs at every call (a serial number, a
+/// timestamp) and which counts how often it is asked: what is signed must be what is returned.
+struct ChangingExtra(std::sync::atomic::AtomicU32);
+impl passkey_client::ClientData<Value> for ChangingExtra {
+    fn extra_client_data(&self) -> Value {
+        json!({"serial": self.0.fetch_add(1, std::sync::atomic::Ordering::SeqCst)})
+    }
+    fn client_data_hash(&self) -> Option<Vec<u8>> {
+        None
+    }
+}
+const CHANGING: &str = "<value changes at every call>";
+
 pub fn eval_extra_name(name: &str, register: bool) -> Vec<(String, String)> {
     use passkey_client::DefaultClientDataWithExtra;
     let mut fs: Vec<(String, String)> = vec![];
@@ -350,15 +363,20 @@ pub fn eval_extra_name(name: &str, register: bool) -> Vec<(String, String)> {
     m.insert(name.to_string(), json!({"rpId": "example.com", "total": {"value": "1.00", "currency": "EUR"}, "instrument": {"displayName": "x"}}));
     let extra = Value::Object(m.clone());
     let expect_extra: Vec<(String, Value)> = m.into_iter().collect();
+    let changing = name == CHANGING;
     let r = crate::core::par::catch(|| {
         if register {
             let opts = creation_options(Reg { challenge: ch.clone(), ..Default::default() });
-            crate::core::exec::block_on(client.register(&origin, opts, DefaultClientDataWithExtra(extra.clone()))).map(|c| (c.response.client_data_json.clone(), None)).map_err(|e| format!("{e:?}"))
+            let r = if changing { crate::core::exec::block_on(client.register(&origin, opts, ChangingExtra(Default::default()))) } else { crate::core::exec::block_on(client.register(&origin, opts, DefaultClientDataWithExtra(extra.clone()))) };
+            r.map(|c| (c.response.client_data_json.clone(), None)).map_err(|e| format!("{e:?}"))
         } else {
             let opts = request_options(Auth { challenge: ch.clone(), allow: Some(vec![cred_id(1)]), ..Default::default() });
-            crate::core::exec::block_on(client.authenticate(&origin, opts, DefaultClientDataWithExtra(extra.clone()))).map(|c| (c.response.client_data_json.clone(), Some((c.response.authenticator_data.to_vec(), c.response.signature.to_vec())))).map_err(|e| format!("{e:?}"))
+            let r = if changing { crate::core::exec::block_on(client.authenticate(&origin, opts, ChangingExtra(Default::default()))) } else { crate::core::exec::block_on(client.authenticate(&origin, opts, DefaultClientDataWithExtra(extra.clone()))) };
+            r.map(|c| (c.response.client_data_json.clone(), Some((c.response.authenticator_data.to_vec(), c.response.signature.to_vec())))).map_err(|e| format!("{e:?}"))
         }
     });
+    // with changing extra data any serial is fine: the member is not compared, the signature is
+    let expect_extra = if changing { vec![] } else { expect_extra };
     let what = if register { "webauthn.create" } else { "webauthn.get" };
     match r {
         Err(p) => fs.push(("panic".into(), p)),
